@@ -1,0 +1,39 @@
+//go:build verif
+
+package vgirpc
+
+import "github.com/apache/arrow-go/v18/arrow"
+
+// Thin exported wrappers over unexported shared-memory batch helpers for the
+// /verif conformance harness (module ShmBatch, property C35). Each wrapper
+// calls the real function and nothing else.
+
+// VerifMakeShmPointerBatch runs makeShmPointerBatch.
+func VerifMakeShmPointerBatch(schema *arrow.Schema, offset uint64, length int, extraMeta map[string]string) arrow.RecordBatch {
+	return makeShmPointerBatch(schema, offset, length, extraMeta)
+}
+
+// VerifBatchBufferSize runs batchBufferSize (the quantity MaybeWriteToShm gates on).
+func VerifBatchBufferSize(batch arrow.RecordBatch) int64 { return batchBufferSize(batch) }
+
+// VerifEstimateSerializedSize runs estimateSerializedSize (AllocateAndWrite's pre-check size).
+func VerifEstimateSerializedSize(batch arrow.RecordBatch) int { return estimateSerializedSize(batch) }
+
+// VerifShmMinBatchBytes runs shmMinBatchBytes.
+func VerifShmMinBatchBytes() int64 { return shmMinBatchBytes() }
+
+// VerifRegionBytes returns a copy of n mapped bytes starting at off (clamped to the mapping).
+func (s *ShmSegment) VerifRegionBytes(off uint64, n int) []byte {
+	s.mu.Lock()
+	defer s.mu.Unlock()
+	if off > uint64(len(s.data)) {
+		off = uint64(len(s.data))
+	}
+	end := off + uint64(n)
+	if end > uint64(len(s.data)) || end < off {
+		end = uint64(len(s.data))
+	}
+	out := make([]byte, end-off)
+	copy(out, s.data[off:end])
+	return out
+}
